@@ -570,6 +570,10 @@ def legal_io_world(rnd):
         w["shortwrite_stdout"] = rnd.choice([1, 5, 40])
     if rnd.random() < 0.3:
         w["shortwrite_obj"] = rnd.choice([1, 100, 1000])
+    if rnd.random() < 0.2:
+        w["eintr_write_obj"] = rnd.randint(1, 2)
+    if rnd.random() < 0.2:
+        w["eintr_write_stdout"] = rnd.randint(1, 6)
     w["hashseed"] = rnd.getrandbits(63)
     return w
 
